@@ -140,7 +140,10 @@ Fixpoint loop_dn (tq : Q) (fuel : nat) (t : list row) (i hp cp p : nat) : result
         let '(t1, n) := if (e =? p)%nat then (t, O)
                         else insert_T tq t (lin_interp (Hat t i0) (Hat t e) (Hat t (e - 1)) (Tat t e) (Tat t (e - 1))) in
         let i0' := if (0 <? n)%nat then (i0 + n)%nat else i0 in
-        let t2 := set_np t1 (S e) i0' (Hat t1 i0') in
+        (* when nothing was inserted although the pocket closes before the pinch (closing point within tol of an existing row) the exit
+           row itself is flattened too (repair of D56) *)
+        let a := if (0 <? n)%nat || (e =? p)%nat then S e else e in
+        let t2 := set_np t1 a i0' (Hat t1 i0') in
         loop_dn tq f t2 (e - n)%nat hp cp p
       else loop_dn tq f t (i - 1)%nat hp cp p
   end.
@@ -357,6 +360,17 @@ Definition P_prof (tq eps : Q) (Hs hot cold : list Q) (n : nat) : Z :=
   else if has_pinch tq Hs && negb (close eps (hd 0 cold) (hd 0 Hs) && close eps (Qopp (last hot 0)) (last Hs 0)) then 9%Z
   else 0%Z.
 
+(* for inputs that are not Robust (a level, or a crossing, within tol of another) only the rows are judged, with an
+   absolute slack of 4 tol: a suppressed breakpoint or a sub-tol step moves the curve by at most that much there *)
+Fixpoint rows_slack (slack eps : Q) (np sp : list Q) (k : Z) : Z :=
+  match np, sp with
+  | [], [] => (-1)%Z
+  | x :: a, y :: b => if qleb (Qabs (x - y)) (slack + eps * qscale x y) then rows_slack slack eps a b (k + 1)%Z else k
+  | _, _ => k
+  end.
+Definition P_rows_slack (tq eps : Q) (Ts Hs oT oNP : list Q) : Z :=
+  if Z.eqb (rows_slack (4 * tq) eps oNP (map (spec_np tq Ts Hs) oT) 0) (-1) then 0%Z else 14%Z.
+
 (* ====================================================================================== correspondence *)
 Definition rows_close (eps : Q) (m : list row) (oT oH oNP : list Q) : Z :=
   let a := close_idx eps (map rT m) oT 0 in
@@ -372,7 +386,8 @@ Definition same_rows (eps : Q) (a b : list row) : bool :=
 Definition derived := option (list Q * list Q * (list Q * list Q * list Q)).
 
 (* verdict of one case.  [1] fragile: the model at tol(1-1e-3), tol, tol(1+1e-3) does not agree with itself;
-   [3; c] property clause c false on the implementation's output (Robust inputs; decided first);
+   [3; c] property clause c false on the implementation's output (Robust inputs: all clauses; other inputs: clause 14 =
+   H_net_np at a row further than 4 tol from the running minimum; decided first);
    [2; k] model and implementation differ (k: 0.. T, 100.. H_net, 200.. H_net_np, 300.. hot, 400.. cold profile,
    500.. pockets, 600.. vertical, 700.. actual, 900 zipper form differs from index model on a Robust input,
    999 model raised);
@@ -391,7 +406,7 @@ Definition judge_np (Ts Hs oT oH oNP hot cold : list Q) (d : derived) : list Z :
                && Z.eqb (close_idx 0 mc mc1 0) (-1) && Z.eqb (close_idx 0 mc mc2 0) (-1)) then [V_FRAGILE]
       else
         let rb := robust_b tol Ts Hs && robust_b lo Ts Hs && robust_b hi Ts Hs in
-        let p1 := if rb then P_np tol eps9 Ts Hs oT oH oNP else 0%Z in
+        let p1 := if rb then P_np tol eps9 Ts Hs oT oH oNP else P_rows_slack tol eps9 Ts Hs oT oNP in
         let p2 := if rb then P_prof tol eps9 Hs hot cold (List.length oT) else 0%Z in
         if negb (Z.eqb p1 0) then [V_PROP_FALSE; p1]
         else if negb (Z.eqb p2 0) then [V_PROP_FALSE; p2]
